@@ -34,6 +34,7 @@ type Contract struct {
 	Props      []string
 	Requires   []*Clause
 	Ensures    []*Clause
+	Checks     []*Clause // like ensures, but internal: may mention locals; proved at every return, never assumed by callers
 	Loops      map[int]*LoopSpec
 	Decreases  *Clause
 	Assigns    []*Clause // location expressions
@@ -345,6 +346,12 @@ func (P *Program) loadContractFile(file string) error {
 				return err
 			}
 			cur.Ensures = append(cur.Ensures, c)
+		case "check":
+			c, err := mkClause(rest, line)
+			if err != nil {
+				return err
+			}
+			cur.Checks = append(cur.Checks, c)
 		case "assert":
 			c, err := mkClause(rest, line)
 			if err != nil {
